@@ -68,42 +68,46 @@ func bufferWrites(fn *ssa.Function) (writes []bufWrite, buf ssa.Value, ok bool, 
 		return nil, nil, false, "writes are not straight-line (branch or loop around a write)"
 	}
 	sizes := types.SizesFor("gc", "amd64")
-	for _, call := range calls {
+	for _, op := range calls {
+		call := op.call
 		var b ssa.Value
 		w := bufWrite{call: call}
-		switch calleeName(call) {
+		switch op.name {
 		case "encoding/binary.Write":
-			b = strip(arg(call, 0))
-			if !isLittleEndian(arg(call, 1)) {
+			b = strip(op.stream)
+			if !isLittleEndian(op.order) {
 				return nil, nil, false, "a field is not written little-endian"
 			}
-			v := arg(call, 2)
-			mi, isMI := v.(*ssa.MakeInterface)
-			if !isMI {
+			var x ssa.Value
+			if mi, isMI := op.val.(*ssa.MakeInterface); isMI {
+				x = mi.X
+			} else if _, isIface := op.val.Type().Underlying().(*types.Interface); !isIface {
+				x = op.val // operand of a typed put-helper, translated to this call site
+			} else {
 				return nil, nil, false, "binary.Write operand of unknown static type"
 			}
-			w.val = mi.X
-			t := mi.X.Type().Underlying()
+			w.val = x
+			t := x.Type().Underlying()
 			bt, isBasic := t.(*types.Basic)
 			if !isBasic || bt.Info()&types.IsInteger == 0 || bt.Kind() == types.Int || bt.Kind() == types.Uint || bt.Kind() == types.Uintptr {
-				return nil, nil, false, fmt.Sprintf("binary.Write operand of type %s has no fixed wire width", mi.X.Type())
+				return nil, nil, false, fmt.Sprintf("binary.Write operand of type %s has no fixed wire width", x.Type())
 			}
 			w.width = int(sizes.Sizeof(t))
 		case "(*bytes.Buffer).Write":
-			b = recvOf(call)
-			elems, isLit := sliceLitElems(arg(call, 0))
+			b = strip(op.stream)
+			elems, isLit := sliceLitElems(op.val)
 			if !isLit {
 				// data payload: width unknown (-1), allowed only by rules that expect it
 				w.width = -1
-				w.val = arg(call, 0)
+				w.val = op.val
 			} else {
 				w.width = len(elems)
-				w.val = arg(call, 0)
+				w.val = op.val
 			}
 		case "(*bytes.Buffer).WriteByte":
-			b = recvOf(call)
+			b = strip(op.stream)
 			w.width = 1
-			w.val = arg(call, 0)
+			w.val = op.val
 		default:
 			return nil, nil, false, "string write into a packet buffer"
 		}
